@@ -662,7 +662,7 @@ def plan(tier):
             for ann in ("cls", "str"):
                 specs.append({"part": "enum", "kind": kind, "ann": ann, "depth": 4})
         for i in range(12):
-            specs.append({"part": "sm", "kind": kinds[i % 2], "n": 2000, "i": i})
+            specs.append({"part": "sm", "kind": kinds[i % 2], "n": 1200, "i": i})
     else:
         for kind in kinds:
             for ann in ("cls", "str"):
